@@ -1,6 +1,7 @@
 #!/bin/bash
 # run every registered check at the thorough tier, one after the other; summary on stdout
 ids=$(python3 -c "import json;print(' '.join(c['property_id'] for c in json.load(open('MANIFEST.json'))['checks']))")
+[ -n "$1" ] && ids="$@"
 for c in $ids; do
   s=$(date +%s)
   out=$(nice -n 10 ./check $c --tier thorough 2>&1 | tail -5)
